@@ -1093,3 +1093,88 @@ func countLoopIter(l *loop, isM func(ssa.Instruction) bool) (min, max int, ok bo
 	}
 	return out.min + nh, out.max + nh, out.ok
 }
+
+// edgeConds returns the branch conditions known to hold when control is in block b, having entered it
+// from pred (pred may be nil): every If whose taken successor dominates b with that successor entered
+// only from the If, plus the If at the end of pred.
+func edgeConds(b, pred *ssa.BasicBlock) map[ssa.Value]bool {
+	out := map[ssa.Value]bool{}
+	addEdge := func(from, to *ssa.BasicBlock) {
+		if from == nil || len(from.Instrs) == 0 {
+			return
+		}
+		iff, ok := from.Instrs[len(from.Instrs)-1].(*ssa.If)
+		if !ok || from.Succs[0] == from.Succs[1] {
+			return
+		}
+		if from.Succs[0] == to {
+			out[iff.Cond] = true
+		} else if from.Succs[1] == to {
+			out[iff.Cond] = false
+		}
+	}
+	var walk func(x *ssa.BasicBlock)
+	walk = func(x *ssa.BasicBlock) {
+		for x != nil {
+			d := x.Idom()
+			if d != nil && len(x.Preds) == 1 && x.Preds[0] == d {
+				addEdge(d, x)
+			}
+			x = d
+		}
+	}
+	if pred != nil {
+		addEdge(pred, b)
+		// conditions that held in pred itself
+		if len(pred.Preds) == 1 {
+			addEdge(pred.Preds[0], pred)
+		}
+		walk(pred)
+	} else {
+		walk(b)
+	}
+	return out
+}
+
+// retLeaf is one possible result of a function: the value, and the edge it is selected on.
+type retLeaf struct {
+	v     ssa.Value
+	block *ssa.BasicBlock // block in which v is selected (the phi's block, or the return's)
+	pred  *ssa.BasicBlock // incoming edge for phi operands, nil otherwise
+}
+
+// returnLeaves expands result i of every return of fn through phis (one level of nesting per phi, cycles cut).
+func returnLeaves(fn *ssa.Function, i int) []retLeaf {
+	var out []retLeaf
+	seen := map[ssa.Value]bool{}
+	var expand func(v ssa.Value, b, pred *ssa.BasicBlock)
+	expand = func(v ssa.Value, b, pred *ssa.BasicBlock) {
+		if ph, ok := v.(*ssa.Phi); ok {
+			if seen[ph] {
+				return
+			}
+			seen[ph] = true
+			for k, e := range ph.Edges {
+				expand(e, ph.Block(), ph.Block().Preds[k])
+			}
+			return
+		}
+		out = append(out, retLeaf{v, b, pred})
+	}
+	eachInstr(fn, func(in ssa.Instruction) {
+		if r, ok := in.(*ssa.Return); ok && isReturn(in) && i < len(r.Results) {
+			v := r.Results[i]
+			// defer-spilled or address-taken results: follow the reaching stores
+			if u, ok := v.(*ssa.UnOp); ok && u.Op == token.MUL {
+				if a, ok := u.X.(*ssa.Alloc); ok {
+					for _, st := range reachingStores(u, a) {
+						expand(st.Val, st.Block(), nil)
+					}
+					return
+				}
+			}
+			expand(v, r.Block(), nil)
+		}
+	})
+	return out
+}
